@@ -30,7 +30,7 @@ ASSUMPTIONS = [
     'geometries, shank labels and inverse whitening matrices come from a fixed concrete set (distance ranking '
     'is NumPy\'s own on concrete coordinates)',
     'with an explicit caller list only the channel list and the column alignment are claimed',
-    'sparse tables: entries in [-1, nc), distinct apart from -1',
+    'sparse tables: entries in [-1, nc), distinct apart from -1; sparse template values on a 1/4 grid in [-8, 8]',
 ]
 STUBS = []
 OUTSIDE = ['float32 rounding', 'symbolic whitening matrices', 'symbolic geometries']
@@ -54,6 +54,10 @@ def configs(tier):
                                 continue
                             out.append({'kind': 'dense', 'nc': nc, 'geom': geom, 'wmi': wmi, 'ncl': ncl,
                                         'thr': thr, 'unwhiten': unw, 'nsw': 2})
+    for nc in (3, 4):
+        for thr in (None, 0, 1):
+            out.append({'kind': 'dense', 'nc': nc, 'geom': 'zigzag', 'wmi': 'I', 'ncl': nc, 'thr': thr,
+                        'unwhiten': True, 'nsw': 2, 'model_thr': 0.5})
     for nc in (3, 4):
         out.append({'kind': 'dense_explicit', 'nc': nc, 'geom': 'zigzag', 'wmi': 'dense', 'ncl': 2, 'thr': None,
                     'unwhiten': True, 'nsw': 2})
@@ -85,7 +89,8 @@ def run_config(cfg, e):
         nc, nsw = cfg['nc'], cfg['nsw']
         if kind.startswith('dense'):
             arr, flat, tw = _dense_inputs(e, cfg)
-            m, Bunch = models.build_sym_model(pkg, nc, cfg['geom'], cfg['wmi'], cfg['ncl'], threshold=0)
+            m, Bunch = models.build_sym_model(pkg, nc, cfg['geom'], cfg['wmi'], cfg['ncl'],
+                                              threshold=cfg.get('model_thr', 0))
             m.sparse_templates = Bunch(data=arr, cols=None)
             m.template_ids = snp.asarray(np.array([0]))
             m.spike_templates = snp.asarray(np.array([0, 0], dtype=np.int32))
@@ -132,7 +137,7 @@ def run_config(cfg, e):
                 best = int(b.best_channel)
             except Exception as ex:
                 e.fail('exception %r' % (ex,))
-            thr = cfg['thr'] if cfg['thr'] is not None else 0
+            thr = cfg['thr'] if cfg['thr'] is not None else cfg.get('model_thr', 0)
             obl = [(len(set(ch)) == len(ch), 'channels not distinct'),
                    (tpl.shape == (nsw, len(ch)), 'template shape %s for %d channels' % (tpl.shape, len(ch))),
                    (len(ampl) == len(ch), 'amplitude vector has %d entries for %d channels' % (len(ampl), len(ch))),
@@ -158,6 +163,11 @@ def run_config(cfg, e):
         # ---- sparse storage -------------------------------------------------------------------
         nloc = cfg['nloc']
         arr, flat = models.sym_reals(e, 'w', (1, nsw, nloc))
+        # values on a 1/4 grid in [-8, 8]: the 1e-6 signal threshold is then never a float-rounding boundary
+        for v in flat:
+            kq = e.int('q')
+            e.add(sand(kq >= -32, kq <= 32))
+            e.assume(v * 4 == core.SymReal(z3.ToReal(kq.term)))
         cols = [e.int('col%d' % k, -1, nc - 1) for k in range(nloc)]
         for a, b2 in itertools.combinations(cols, 2):
             e.assume(sor(a != b2, a == -1))
@@ -261,10 +271,12 @@ def _check_record(b, U, nsw, expect_set=None, tol=1e-5):
 def replay(case):
     kind, nc, nsw = case['kind'], case['nc'], case['nsw']
     wmi = models.wmi_matrix(case['wmi'], nc)
+    from symx.loader import real_phylib
+    real_phylib()
     from phylib.utils import Bunch
     if kind.startswith('dense'):
         data = np.array(case['data'], dtype=np.float64).reshape(1, nsw, nc)
-        m = models.build_real_model(nc, case['geom'], case['wmi'], case['ncl'])
+        m = models.build_real_model(nc, case['geom'], case['wmi'], case['ncl'], threshold=case.get('model_thr', 0))
         m.sparse_templates = Bunch(data=data, cols=None)
         m.template_ids = np.array([0])
         m.spike_templates = np.array([0, 0], dtype=np.int32)
@@ -294,7 +306,7 @@ def replay(case):
         if msg:
             return msg
         best = int(b.best_channel)
-        thr = case['thr'] if case['thr'] is not None else 0
+        thr = case['thr'] if case['thr'] is not None else case.get('model_thr', 0)
         near = models.closest(case['geom'], nc, best, case['ncl'])
         shanks = models.GEOMS[case['geom']](nc)[1]
         ch = [int(v) for v in b.channel_ids]
